@@ -47,13 +47,15 @@ def variants(model):
     p = free[-1]
     lo, hi = sorted((0.3 * tr[p], 0.93 * tr[p]))
     out.append(("lim-bound:" + p, [("lim", p, round(lo, 6), round(hi, 6))]))
+    if "c" in free:
+        out.append(("fix0:c", [("fix", "c", 0.0)]))  # fixing to exactly zero
     lo, hi = sorted((0.5 * tr[free[0]], 2.0 * tr[free[0]]))
     out.append(("lim-in+fix:%s+%s" % (free[0], free[-1]), [("lim", free[0], round(lo, 6), round(hi, 6)), ("fix", free[-1], round(tr[free[-1]] * 1.02, 6))]))
     return out
 
 
 def dynamic(unc):
-    return unc in ("xy", "relm", "xy-relm")
+    return unc in ("xy", "relm", "xy-relm", "x-model")
 
 
 def jobs(tier, seed):
@@ -65,7 +67,7 @@ def jobs(tier, seed):
             for unc in UNCS:
                 for dea in ["nonlinear"] + (["iterative"] if dynamic(unc) else []):
                     for vname, vops in variants(model):
-                        if tier == "quick" and unc in ("cov",) and vname != "free":
+                        if tier == "quick" and unc in ("cov", "x-model") and vname != "free":
                             continue
                         specs.append(("xy", model + "/" + unc, dea, vname, vv, tier))
         for name in ("hist-nll", "hist-nllg", "hist-ga", "unbinned-nll"):
